@@ -532,8 +532,11 @@ func runC15(r *R) {
 					r.Fail("pause-too-short", "in %s the step %d (%s) arrived %v after step %d, the description puts a pause of %v between them (request list %s)", sc.Name, j, in.kinds[j], gap, j-1, sc.Steps[j-1].Sleep, strings.Join(sc.Lines, ", "))
 					return
 				}
-				if gap > sc.Steps[j-1].Sleep+time.Second {
-					r.Fail("pause-too-long", "in %s the step %d (%s) arrived %v after step %d, the configured pause is %v", sc.Name, j, in.kinds[j], gap, j-1, sc.Steps[j-1].Sleep)
+				// nothing but the configured pause, the answer's way back and the request's way out (and, after a closed
+				// connection, a new connect) lies between two arrivals: a pause that belongs to another entry of the
+				// request list (20 ms and more) does not fit in
+				if slack := 6*lat + 5*time.Millisecond; gap > sc.Steps[j-1].Sleep+slack {
+					r.Fail("pause-too-long", "in %s the step %d (%s) arrived %v after step %d, the configured pause is %v (one-way latency %v; request list %s)", sc.Name, j, in.kinds[j], gap, j-1, sc.Steps[j-1].Sleep, lat, strings.Join(sc.Lines, ", "))
 					return
 				}
 			}
